@@ -533,6 +533,37 @@ def _store_consts(f: Func, var: str):
     return out
 
 
+def scaled_e0_vectors(f: Func):
+    """Vectors of the form c * e0 built in f (or its nested functions), whatever the spelling:
+         np.hstack([np.array([C]), np.zeros(N - 1)])                 -> (node, C expr, N-1 expr, 'tail')
+         v = np.zeros(N); v[0] = C   (single constant store)          -> (node, C expr, N expr, 'full')
+    Returns [(node, scalar expr, length expr, kind, func)]."""
+    out = []
+    for ff in [f] + list(f.nested.values()):
+        for n in own_nodes(ff.node):
+            if isinstance(n, ast.Call) and (dotted(n.func) or "").endswith("hstack") and n.args and isinstance(n.args[0], (ast.List, ast.Tuple)) \
+                    and len(n.args[0].elts) == 2:
+                head, tail = n.args[0].elts
+                if isinstance(tail, ast.Call) and (dotted(tail.func) or "").endswith("zeros") and tail.args:
+                    e = head
+                    while isinstance(e, ast.Call) and (dotted(e.func) or "").split(".")[-1] in ("array", "asarray") and e.args:
+                        e = e.args[0]
+                    if isinstance(e, (ast.List, ast.Tuple)) and len(e.elts) == 1:
+                        e = e.elts[0]
+                    out.append((n, e, tail.args[0], "tail", ff))
+            if isinstance(n, ast.Assign) and len(n.targets) == 1 and isinstance(n.targets[0], ast.Name) and isinstance(n.value, ast.Call) \
+                    and (dotted(n.value.func) or "").endswith("zeros") and n.value.args:
+                nm = n.targets[0].id
+                st = _store_consts(ff, nm)
+                others = [x for x in own_nodes(ff.node) if isinstance(x, ast.AugAssign) and unparse(x.target).startswith(nm)]
+                if len(st) == 1 and st[0][0] == ("0",) and not others:
+                    ln = n.value.args[0]
+                    if isinstance(ln, ast.Tuple) and len(ln.elts) == 1:
+                        ln = ln.elts[0]
+                    out.append((n, st[0][1], ln, "full", ff))
+    return out
+
+
 def _check_constants(ctx, rep):
     ix = ctx.ix
     inv_sqrt_d = Poly.sym("d") ** Fraction(-1, 2)
@@ -605,22 +636,22 @@ def _check_constants(ctx, rep):
                            (OBJ + "povm.Povm.calc_proj_eq_constraint", sqrt_d * (Poly.sym("m") ** -1), "per-element shift"),
                            (OBJ + "povm.Povm.calc_proj_eq_constraint_with_var", sqrt_d * (Poly.sym("m") ** -1), "per-element shift")):
         f = ix.func(qn)
-        hs = []
-        for ff in [f] + list(f.nested.values()):
-            hs += [(ff, h) for h in hstack_head(ff)]
+        hs = [v for v in scaled_e0_vectors(f) if not (v[3] == "full" and is_num(v[1], 1))]
         if len(hs) != 1:
-            rep.undecided("I5", f, "hstack", "expected one hstack([c, zeros(d^2-1)]), found %d" % len(hs))
+            rep.undecided("I5", f, "c e0", "expected one vector c*e0 (hstack([c, zeros(d^2-1)]) or zeros(d^2) with entry 0 set), found %d" % len(hs))
             continue
-        ff, (node, head, tail) = hs[0]
+        node, scalar, length, kind, ff = hs[0]
         try:
-            tl = _size_poly(tail.args[0], ff)
-            if tl != D2 - 1:
-                rep.violation("I5", f, node, "zero tail has length %r, expected d^2-1 (constant must sit at coefficient 0 of a d^2 vector)" % tl, node=node)
+            tl = _size_poly(length, ff)
+            want_len = D2 - 1 if kind == "tail" else D2
+            if tl != want_len:
+                rep.violation("I5", f, node, "the vector has %r entries after / including coefficient 0, expected %r (constant must sit at coefficient 0 "
+                                             "of a d^2 vector)" % (tl, want_len), node=node)
                 continue
         except Undecided as ex:
             rep.undecided("I5", f, node, str(ex))
             continue
-        expect_scalar(ff, node, head_scalar(head), want, what)
+        expect_scalar(ff, node, scalar, want, what)
     f = ix.func(OBJ + "povm.convert_vecs_to_var")
     dl = [n for n in own_nodes(f.node) if isinstance(n, ast.Delete)]
     if len(dl) == 1 and len(dl[0].targets) == 1 and isinstance(dl[0].targets[0], ast.Subscript):
